@@ -21,6 +21,12 @@ def run(chk):
     from . import _glue, _oracle
 
     _glue.glue_part(chk, ["CountMinLog16", "CountMinLog8"], {"add", "add_ngram", "query"}, lambda: _oracle.c12_equiv(chk, 60, ["CountMinLog16", "CountMinLog8"]))
+    from ..lemmas_log import lemmas_merge_log
+
+    for ceil, tag in ((65535, "log16"), (255, "log8")):
+        for name, hyps, goal in lemmas_merge_log(ceil, tag):
+            if "exact-sum" in name or "merged-counter>=input" in name:
+                chk.prove("lemma:" + name, hyps, goal)  # lower bound min(f, nr+1) survives merges
     # canary: a mis-exponentiated probability (base^+(c-nr)) makes the step biased
     from ..contracts.countmin import DEC
     from ..sem import POW
